@@ -174,6 +174,29 @@ def check(run: Run) -> None:
                     nm = ast.unparse(exc)
                     run.check(nm == "ValueError" or (fi.qual, nm) in RAISE_WHITELIST, "C10.R4", fi, r, "exceptions are re-raised as ValueError (or enumerated)", f"handler re-raises {nm}")
 
+    # ---------------- R6: the designed refusals of the type follower fire only for the designed cases
+    run.rule("C10.R6", "refusals in visit_Subscript are confined to tuple literals (constant, in-range index) and dictionary/dataclass keys; visit_IfExp refuses only incompatible branch types")
+    vs = tt.methods.get("visit_Subscript")
+    if vs is None:
+        raise AnalysisError("anchor vanished: type_transformer.visit_Subscript")
+    fvs = ctx.analysis(vs)
+    V = ("gvisit", ("param", vs.pos_params[1]))
+    n_r = 0
+    for n in own_nodes(vs):
+        if isinstance(n, ast.Raise):
+            n_r += 1
+            fx = Facts(fvs, n)
+            tup = fx.isinstance_of(("attr", V, "value"), {"ast.Tuple"})
+            dc = any(pol and isinstance(a, ast.Call) and isinstance(a.func, ast.Name) and a.func.id == "is_dataclass" for a, pol in fx.atoms)
+            run.check(tup or dc, "C10.R6", vs, n, "refusal applies to a tuple literal or to a dictionary/dataclass value only", "a refusal in visit_Subscript is reachable for values other than tuple literals and dictionaries (e.g. list literals, arbitrary sequences): a valid expression such as [a, b][i] is refused instead of being passed through", "isinstance(t_node.value, ast.Tuple)")
+    run.floor("C10.R6", n_r, 3, "refusals in visit_Subscript")
+
+    # ---------------- R7: names bound by the lambda itself are never replaced by captured values
+    run.rule("C10.R7", "capture rewriting leaves every name bound by an enclosing lambda / comprehension alone (all frames consulted)")
+    from .c04 import check_binders
+
+    check_binders(run, TermCtx(m, max_depth=2), m, m.find_class("_rewrite_captured_vars", in_module="func_adl.util_ast"), "C10.R7")
+
     # ---------------- R5
     check_env_merge(run, m, "C10.R5")
     # Where's designed refusal exists (shared with C08.R2) and the IfExp / tuple-index / dict-key refusals are ValueErrors: R4 covers them
